@@ -318,7 +318,58 @@ func Run(ctx *common.Ctx) int {
 	ev, ok := dAll.S2(ctx, s2specs, !quick, 1100, func(n int) []int { m, _, _, _ := refmodel.LongestRunRegime(n); return []int{m} })
 	cmp.Count("S2 periodic patterns with bit flips (all four run-based calls)", ev)
 	exhaustive = exhaustive && ok
-	_ = r.Alpha
+	fev, fok := dAll.Fillers(ctx, e2.WordLengths(6271, 6272, 6273, 20000), 2, uint64(ctx.Seed))
+	cmp.Count("fillers and biased fillers at every n in 33..200 (from each call's minimum), around powers of two, 6272, 20000", fev)
+	exhaustive = exhaustive && fok
+	// byte entry point of the longest-run test in the 10000-bit regime: planted long runs of either symbol
+	var lbEvals int64
+	longL := []int{17, 100, 255, 256, 257, 260, 271, 272, 300, 511, 512, 520, 1030, 4096, 9999, 10000, 12000}
+	common.ParFor(len(longL), func(li int) {
+		L := longL[li]
+		for _, sym := range []bool{true, false} {
+			for _, n := range []int{750000, 1000000} {
+				if quick && n == 750000 && li%3 != 0 {
+					continue
+				}
+				bits := enum.Filler(n, uint64(ctx.Seed)+uint64(L))
+				for _, start := range []int{5, 20000 - L/2, n - 10000 + 13} {
+					if start < 0 || start+L+1 >= n {
+						continue
+					}
+					if start > 0 {
+						bits[start-1] = !sym
+					}
+					for j := 0; j < L; j++ {
+						bits[start+j] = sym
+					}
+					bits[start+L] = !sym
+				}
+				nb := n / 8
+				data := make([]byte, nb)
+				for j := 0; j < nb*8; j++ {
+					if bits[j] {
+						data[j/8] |= 0x80 >> uint(j%8)
+					}
+				}
+				b8 := bits[:nb*8]
+				for _, ones := range []bool{true, false} {
+					wp, wq := refmodel.LongestRun(b8, ones)
+					var p, q float64
+					name := fmt.Sprintf("LongestRunOfOnesInABlockTestBytes(ones=%v)", ones)
+					desc := func() interface{} {
+						return map[string]interface{}{"n": nb * 8, "filler_seed": ctx.Seed + int64(L), "planted_runs_of": sym, "run_length": L}
+					}
+					if pv := common.Catch(func() { p, q = r.LongestRunOfOnesInABlockTestBytes(data, ones) }); pv != nil {
+						cmp.Panic(name, pv, desc())
+						continue
+					}
+					cmp.PQ(name, uint64(L)<<8, p, q, wp, wq, desc)
+					atomic.AddInt64(&lbEvals, 1)
+				}
+			}
+		}
+	})
+	cmp.Count("longest run, byte entry point, 10000-bit regime: fillers with planted runs of 17..12000 ones/zeros", lbEvals)
 	cov := cmp.Coverage("runs total: every bit string n=1.."+fmt.Sprint(maxN)+"; runs distribution: every run-length word (prefix <=2(3) letters, suffix <=2 letters over {1..k+2,k+9}, both first symbols) at n in {100,101,1000,20000} and n_k-1, n_k for every cut-off k=3..9; "+
 		"longest run: every n in 128..8000, every ordered pair of 8-bit block contents at n=128..135, a block of every longest-run value in first/middle/last block and boundary-straddling runs in the 128- and 10000-bit regimes, both symbols; S2 periodic patterns with <=1(2) flips; "+
 		"distinct = distinct (call, reference P) pairs with 0<P<1", exhaustive,
